@@ -139,10 +139,14 @@ MODS = {
     # callables of other shapes: a bound parameter with a default (the loop-binding idiom), a def with a keyword
     # option, a builtin, a partial - each is still called with the value only
     "x0.9_default_arg": lambda v, k=0.9: v * k,
+    "+0.5_default_arg": lambda v, c=0.5: v + c,
     "def_with_option": _scaled,
     "builtin_abs": abs,
     "partial_mul": functools.partial(operator.mul, 1.5),
 }
+
+
+MOD_NAMES = sorted(MODS) + ["x0.9_default_arg", "+0.5_default_arg", "def_with_option"]
 
 
 def apply_mods(kg, snap, mods):
@@ -335,14 +339,14 @@ def klatt_cases(draw):
     # 'formants' is a substring of the amplitude groups' names: modifying it must not touch them
     targets += ["nasal_antiformants/formants", "tracheal_antiformants/formants", "frication_formants/formants"] * 4
     targets += [f"{s['name']}/{g['name']}/{i}" for s in secs if s["kind"] == "container" for g in s["groups"][:2] for i in (0, 1)]
-    mods = draw(st.lists(st.tuples(st.sampled_from(targets), st.sampled_from(sorted(MODS))).map(list), max_size=3))
+    mods = draw(st.lists(st.tuples(st.sampled_from(targets), st.sampled_from(MOD_NAMES)).map(list), max_size=3))
     return {"kg": {"xmin": 0.0, "xmax": hi, "sections": secs}, "trailing_blank": draw(st.integers(0, 3)) > 0, "mods": mods}
 
 
 @st.composite
 def fixture_cases(draw):
     targets = ["pitch", "voicingAmplitude", "oral_formants/formants", "oral_formants/bandwidths", "gain", "nasal_formants/formants"]
-    return {"mods": draw(st.lists(st.tuples(st.sampled_from(targets), st.sampled_from(sorted(MODS))).map(list), max_size=2))}
+    return {"mods": draw(st.lists(st.tuples(st.sampled_from(targets), st.sampled_from(MOD_NAMES)).map(list), max_size=2))}
 
 
 @st.composite
